@@ -795,3 +795,555 @@ def _r5(ctx: Ctx, m: pf.Module, classes: Dict[str, ast.ClassDef], canon: Dict[st
             ctx.bad('R5', cons, 'the numeric fast path is (or may be) live: it writes `value.data`, the array\'s memory buffer, which is row-major for C-ordered arrays and '
                                 'not available for non-contiguous ones, while the engine decodes column-major: np.array([[1, 2], [3, 4]]) arrives as [[1, 3], [2, 4]]',
                     m.path, cw.facts['numeric_cond'].lineno)
+
+
+# --------------------------------------------------------------------------------------
+# R4 engine agreement
+# --------------------------------------------------------------------------------------
+#
+# layout signatures (both sides):  'i32' 'i64' 'f32' 'f64' 'bool' 'bin'
+#   ('struct', [sig...]) | ('struct', 'FIELDS')     one missing bit per field, then the present fields in order
+#   ('array', has_missing_bytes, elem_sig)            int32 length, [ceil(n/8) missing bytes], present elements
+#   ('ndarray', elem_sig)                             int64 per dimension, all elements (column-major)
+#   ('param', role)                                   the layout of a type parameter (elementType, keyType, valueType, pointType, t)
+
+PY_ROLE = {'element_type': 'elementType', 'key_type': 'keyType', 'value_type': 'valueType', 'point_type': 'pointType', 't': 't'}
+# frozen table of EType wire layouts (trusted base, read from EType*.scala): name -> kind
+ETYPE_PRIM = {'EInt32': 'i32', 'EInt64': 'i64', 'EFloat32': 'f32', 'EFloat64': 'f64', 'EBoolean': 'bool', 'EBinary': 'bin'}
+ETYPE_ARRAYLIKE = {'EArray', 'EUnsortedSet', 'EDictAsUnsortedArrayOfPairs'}
+
+
+def _subst(sig: Any, env: Dict[str, Any]) -> Any:
+    if isinstance(sig, tuple) and sig and sig[0] == 'param':
+        return env.get(sig[1], sig)
+    if isinstance(sig, tuple):
+        return tuple(_subst(x, env) for x in sig)
+    if isinstance(sig, list):
+        return [_subst(x, env) for x in sig]
+    return sig
+
+
+class PySigs:
+    def __init__(self, ctx: Ctx, m: pf.Module, classes: Dict[str, ast.ClassDef], canon: Dict[str, Tuple[List[tuple], Canon, Canon]]):
+        self.ctx, self.m, self.classes, self.canon = ctx, m, classes, canon
+        self.cache: Dict[str, Any] = {}
+
+    def attr_param(self, cname: str, attr: str) -> str:
+        """`self.<attr>` (a property returning self._x, or the attribute itself) -> constructor parameter stored there."""
+        c = self.classes[cname]
+        ms = W.methods(c)
+        stored = attr
+        if attr in ms and 'property' in pf.decorator_names(ms[attr]):
+            b = W.body_wo_doc(ms[attr])
+            self.ctx.need(len(b) == 1 and isinstance(b[0], ast.Return) and isinstance(b[0].value, ast.Attribute) and pf.nsrc(b[0].value.value) == 'self',
+                          f'{cname}.{attr}: property is not `return self._x`')
+            stored = b[0].value.attr
+        self.ctx.need('__init__' in ms, f'{cname} has no __init__')
+        vals = [st.value for st in ast.walk(ms['__init__']) if isinstance(st, ast.Assign) and len(st.targets) == 1 and pf.nsrc(st.targets[0]) == f'self.{stored}']
+        self.ctx.need(len(vals) == 1 and isinstance(vals[0], ast.Name) and vals[0].id in PY_ROLE, f'{cname}.__init__: self.{stored} is not assigned from a type parameter')
+        return PY_ROLE[vals[0].id]
+
+    def attr_expr(self, cname: str, attr: str) -> ast.expr:
+        c = self.classes[cname]
+        ms = W.methods(c)
+        vals = []
+        if '__init__' in ms:
+            vals = [st.value for st in ast.walk(ms['__init__']) if isinstance(st, ast.Assign) and len(st.targets) == 1 and pf.nsrc(st.targets[0]) == f'self.{attr}']
+        if not vals:
+            vals = [st.value for st in c.body if isinstance(st, ast.Assign) and len(st.targets) == 1 and pf.nsrc(st.targets[0]) == attr]
+        self.ctx.need(len(vals) == 1, f'{cname}: `{attr}` is not assigned exactly once (in __init__ or the class body)')
+        return vals[0]
+
+    def typeexpr(self, e: ast.expr) -> Any:
+        if isinstance(e, ast.Call) and isinstance(e.func, ast.Name) and e.func.id in self.classes:
+            cn = e.func.id
+            if cn == 'tstruct':
+                self.ctx.need(not e.args and all(k.arg for k in e.keywords), 'tstruct(...) with positional / ** arguments in a representation type')
+                return ('struct', [self.typeexpr(k.value) for k in e.keywords])
+            base = self.sig(cn)
+            ms = W.methods(self.classes[cn])
+            ps = W.param_names(ms['__init__'])[1:] if '__init__' in ms else []
+            self.ctx.need(len(e.args) <= len(ps) and not e.keywords, f'{cn}(...) constructor call with keywords in a representation type')
+            env = {PY_ROLE[p]: self.typeexpr(a) for p, a in zip(ps, e.args) if p in PY_ROLE}
+            return _subst(base, env)
+        d = pf.dotted(e)
+        if d is not None:
+            last = d.split('.')[-1]
+            if isinstance(e, ast.Name) and e.id in PY_ROLE:
+                return ('param', PY_ROLE[e.id])
+            try:
+                g = self.m.global_assign(last)
+            except AnalysisError:
+                g = None
+            if isinstance(g, ast.Call) and isinstance(g.func, ast.Name) and g.func.id in self.classes and not g.args:
+                return self.sig(g.func.id)
+        raise AnalysisError(f'{F}: cannot evaluate the representation type expression `{pf.nsrc(e)}`')
+
+    def rec(self, cname: str, target: str) -> Any:
+        if target == 'self.t':
+            return ('param', 't')
+        if target.startswith('self.') and target.count('.') == 1:
+            attr = target.split('.')[1]
+            try:
+                return ('param', self.attr_param(cname, attr))
+            except AnalysisError:
+                return self.typeexpr(self.attr_expr(cname, attr))
+        if target == f'{cname}.struct_repr' or (target.count('.') == 1 and target.split('.')[0] == cname):
+            return self.typeexpr(self.attr_expr(cname, target.split('.')[1]))
+        if target.startswith('self.') and target.endswith('.element_type') and target.count('.') == 2:
+            e = self.attr_expr(cname, target.split('.')[1])
+            self.ctx.need(isinstance(e, ast.Call) and pf.dotted(e.func) == 'tarray' and len(e.args) == 1, f'{cname}: `{target}` is not the element type of a tarray(...)')
+            self.ctx.need(self.attr_param('tarray', 'element_type') == 'elementType', 'tarray.element_type is not the constructor argument')
+            return self.typeexpr(e.args[0])
+        raise AnalysisError(f'{F}::{cname}: cannot resolve the delegated converter receiver `{target}`')
+
+    def sig(self, cname: str) -> Any:
+        if cname in self.cache:
+            return self.cache[cname]
+        self.ctx.need(cname in self.canon, f'{cname} has no encoder')
+        p = self.canon[cname][0]
+        s: Any = None
+        if len(p) == 1 and p[0][0] == 'prim':
+            s = p[0][1]
+        elif p == [('lenprefix', '@0'), ('bytes', '@0')]:
+            s = 'bin'
+        elif len(p) == 1 and p[0][0] == 'rec':
+            s = self.rec(cname, p[0][1])
+        elif len(p) == 3 and p[0] == ('lenprefix', '@0') and p[1] == ('missing', '@0') and p[2][0] == 'loop' and p[2][1] == '@0' \
+                and len(p[2][2]) == 1 and p[2][2][0][0] == 'present' and len(p[2][2][0][1]) == 1 and p[2][2][0][1][0][0] == 'rec':
+            s = ('array', True, self.rec(cname, p[2][2][0][1][0][1]))
+        elif len(p) == 2 and p[0] == ('lenprefix', '@0') and p[1][0] == 'loop' and p[1][1] == '@0' and len(p[1][2]) == 1 and p[1][2][0][0] == 'rec':
+            s = ('array', False, self.rec(cname, p[1][2][0][1]))
+        elif p == [('missing', 'fields'), ('loop', 'fields', [('present', [('rec', 'fieldtype')])])]:
+            s = ('struct', 'FIELDS')
+        elif len(p) == 2 and p[0] == ('loop', 'ndim', [('prim', 'i64')]):
+            x = p[1]
+            if x[0] == 'cond' and x[1] == 'numeric-fast-path':
+                self.ctx.need(len(x[3]) == 1, 'ndarray general branch has several items')
+                x = x[3][0]
+            if x[0] == 'loop' and x[1] == 'size' and len(x[2]) == 1 and x[2][0][0] == 'rec':
+                s = ('ndarray', self.rec(cname, x[2][0][1]))
+        if s is None:
+            raise AnalysisError(f'{F}::{cname}: wire program `{show_canon(p)}` has no layout signature')
+        self.cache[cname] = s
+        return s
+
+
+def _scala_type_name(ctx: Ctx, c: ast.ClassDef) -> Optional[str]:
+    ms = W.methods(c)
+    if '_parsable_string' not in ms:
+        return None
+    rets = [n for n in ast.walk(ms['_parsable_string']) if isinstance(n, ast.Return) and n.value is not None]
+    ctx.need(len(rets) == 1, f'{c.name}._parsable_string: expected one return')
+    e = rets[0].value
+    lead = None
+    if isinstance(e, ast.Constant) and isinstance(e.value, str):
+        lead = e.value
+    elif isinstance(e, ast.JoinedStr) and e.values and isinstance(e.values[0], ast.Constant):
+        lead = e.values[0].value
+    elif isinstance(e, ast.BinOp) and isinstance(e.op, ast.Add):
+        cur = e
+        while isinstance(cur, ast.BinOp):
+            cur = cur.left
+        lead = cur.value if isinstance(cur, ast.Constant) else None
+    elif isinstance(e, ast.Call) and isinstance(e.func, ast.Attribute) and e.func.attr == 'format' and isinstance(e.func.value, ast.Constant):
+        lead = e.func.value.value
+    ctx.need(isinstance(lead, str), f'{c.name}._parsable_string: unrecognised return `{pf.nsrc(e)[:60]}`')
+    ident = ''
+    for ch in lead:
+        if ch.isalnum():
+            ident += ch
+        else:
+            break
+    ctx.need(ident != '', f'{c.name}._parsable_string: no leading type keyword')
+    return 'T' + ident
+
+
+def _ancestors(ctx: Ctx, tname: str) -> List[str]:
+    out = [tname]
+    cur = tname
+    for _ in range(8):
+        p = S.load(f'{VIRT}{cur}.scala').parent_of(cur)
+        if p is None or p in ('Type', 'BaseType'):
+            return out
+        out.append(p)
+        cur = p
+    raise AnalysisError(f'{VIRT}: inheritance chain of {tname} too deep')
+
+
+class EngineSigs:
+    def __init__(self, ctx: Ctx):
+        self.ctx = ctx
+        E = S.load(ETYPE)
+        d = E.def_('object:EType', 'fromPythonTypeEncoding')
+        self.line = d.line
+        ctx.need(len(d.params) == 1, f'{ETYPE}::fromPythonTypeEncoding takes {len(d.params)} parameters')
+        self.scrut = d.params[0][0]
+        b = S.strip(d.body)
+        ctx.need(b[0] == 'match' and X.from_scala(b[1]) == ('name', self.scrut), f'{ETYPE}::fromPythonTypeEncoding is not `{self.scrut} match {{…}}`')
+        self.arms: List[Tuple[str, Optional[str], tuple]] = []  # (type name, binder, body)
+        for pat, body in b[2]:
+            toks = [x[1] for x in pat]
+            binder = None
+            if len(toks) == 3 and toks[1] == ':':
+                binder, tn = toks[0], toks[2]
+            elif len(toks) >= 1 and toks[0][:1] == 'T' and (len(toks) == 1 or toks[1] == '('):
+                tn = toks[0]
+            else:
+                raise AnalysisError(f'{ETYPE}::fromPythonTypeEncoding: unrecognised case pattern `{" ".join(toks)}`')
+            st = body[1]
+            ctx.need(len(st) == 1 and st[0][0] == 'expr', f'{ETYPE}::fromPythonTypeEncoding: arm {tn} is not a single expression')
+            self.arms.append((tn, binder, X.from_scala(st[0][1])))
+        # TDict.elementType
+        td = X.from_scala(S.load(f'{VIRT}TDict.scala').val('TDict', 'elementType'))
+        if td[0] == 'sel' and td[2] == 'asInstanceOf':
+            td = td[1]
+        ctx.need(td[0] == 'call' and td[1] == ('name', 'TStruct'), f'{VIRT}TDict.scala::elementType is not TStruct(...)')
+        self.dict_fields: List[str] = []
+        for _, a in td[2]:
+            ctx.need(a[0] == 'bin' and a[1] == '->' and a[2][0] == 'str' and a[3][0] == 'name', f'{VIRT}TDict.scala::elementType: unrecognised field `{X.show(a)}`')
+            self.dict_fields.append(a[3][1])
+
+    def arm_for(self, tname: str) -> Optional[Tuple[int, str, Optional[str], tuple]]:
+        anc = _ancestors(self.ctx, tname)
+        for i, (tn, binder, body) in enumerate(self.arms):
+            if tn in anc:
+                return i, tn, binder, body
+        return None
+
+    def conv(self, e: tuple, binder: Optional[str], arm: str) -> Tuple[Any, bool, List[str]]:
+        """(layout signature, required flag, notes) of an EType constructor expression."""
+        ctx = self.ctx
+        where = f'{ETYPE}::fromPythonTypeEncoding arm {arm}'
+        # fromPythonTypeEncoding(t.X)[.setRequired(b)]
+        if e[0] == 'call' and e[1][0] == 'sel' and e[1][2] == 'setRequired':
+            inner, _, notes = self.conv(e[1][1], binder, arm)
+            ctx.need(len(e[2]) == 1 and e[2][0][1][0] == 'bool', f'{where}: setRequired with a non-literal argument')
+            return inner, e[2][0][1][1], notes
+        ctx.need(e[0] == 'call' and e[1][0] == 'name', f'{where}: unrecognised expression `{X.show(e)}`')
+        fn = e[1][1]
+        args = e[2]
+
+        def req_of(a: List[Tuple[Optional[str], tuple]], pos: int) -> bool:
+            for kw, v in a:
+                if kw == 'required':
+                    ctx.need(v[0] == 'bool', f'{where}: non-literal required flag')
+                    return v[1]
+            if len(a) > pos and a[pos][0] is None:
+                ctx.need(a[pos][1][0] == 'bool', f'{where}: non-literal required flag in `{X.show(e)}`')
+                return a[pos][1][1]
+            return False  # default of every EType constructor
+
+        if fn in ('fromPythonTypeEncoding', 'EType.fromPythonTypeEncoding'):
+            ctx.need(len(args) == 1 and args[0][1][0] == 'name' and binder is not None and args[0][1][1].startswith(binder + '.'), f'{where}: recursive call on `{X.show(args[0][1])}`')
+            role = args[0][1][1][len(binder) + 1:]
+            if role == 'elementType' and arm == 'TDict':
+                return ('struct', [('param', f) for f in self.dict_fields]), False, []
+            ctx.need(role in ('elementType', 'pointType', 'keyType', 'valueType'), f'{where}: unknown type component `{role}`')
+            return ('param', role), False, []
+        if fn in ETYPE_PRIM:
+            return ETYPE_PRIM[fn], req_of(args, 0), []
+        if fn in ETYPE_ARRAYLIKE:
+            ctx.need(len(args) >= 1, f'{where}: {fn} without element type')
+            es, ereq, notes = self.conv(args[0][1], binder, arm)
+            return ('array', not ereq, es), req_of(args, 1), notes
+        if fn == 'ENDArrayColumnMajor':
+            ctx.need(len(args) >= 2 and binder is not None and args[1][1] == ('name', f'{binder}.nDims'), f'{where}: ENDArrayColumnMajor dimension count is not {binder}.nDims')
+            es, ereq, notes = self.conv(args[0][1], binder, arm)
+            return ('ndarray', es), req_of(args, 2), notes
+        if fn == 'EBaseStruct':
+            ctx.need(len(args) >= 1, f'{where}: EBaseStruct without fields')
+            fl = args[0][1]
+            notes: List[str] = []
+            if fl[0] == 'call' and fl[1] == ('name', 'ArraySeq') or fl[0] == 'call' and fl[1] == ('name', 'FastSeq') or fl[0] == 'call' and fl[1] == ('name', 'IndexedSeq'):
+                sigs = []
+                for idx, (_, fe) in enumerate(fl[2]):
+                    ctx.need(fe[0] == 'call' and fe[1] == ('name', 'EField') and len(fe[2]) == 3, f'{where}: field {idx} is not EField(name, type, index)')
+                    ctx.need(fe[2][2][1] == ('int', idx), f'{where}: field {idx} carries index {X.show(fe[2][2][1])}')
+                    fs, freq, n2 = self.conv(fe[2][1][1], binder, arm)
+                    if freq:
+                        notes.append(f'field {idx} is required (no missing bit)')
+                    sigs.append(fs)
+                return ('struct', sigs), req_of(args, 1), notes
+            if fl[0] == 'call' and fl[1] == ('name', 'ArraySeq.tabulate') and fl[3] is not None and binder is not None:
+                ctx.need(len(fl[2]) == 1 and fl[2][0][1] == ('name', f'{binder}.size'), f'{where}: tabulate bound is not {binder}.size')
+                lam = fl[3]
+                ctx.need(lam[0] == 'lambda' and len(lam[1]) == 1, f'{where}: tabulate body is not a one-parameter lambda')
+                i = lam[1][0]
+                stmts = lam[2][1] if lam[2][0] == 'block' else [('expr', lam[2])]
+                last = stmts[-1]
+                ctx.need(last[0] == 'expr', f'{where}: tabulate body does not end in an expression')
+                fe = last[1]
+                env: Dict[str, tuple] = {}
+                for st in stmts[:-1]:
+                    if st[0] == 'val':
+                        env[st[1]] = st[2]
+                ok = fe[0] == 'call' and fe[1] == ('name', 'EField') and len(fe[2]) == 3
+                ctx.need(ok, f'{where}: tabulate body does not build EField(...)')
+                ty = fe[2][1][1]
+                want = ('call', ('name', 'fromPythonTypeEncoding'), [(None, ('sel', ('call', ('name', f'{binder}.fields'), [(None, ('name', i))], None), 'typ'))], None)
+                ctx.need(ty == want, f'{where}: field type is `{X.show(ty)}`, expected fromPythonTypeEncoding({binder}.fields({i}).typ)')
+                return ('struct', 'FIELDS'), req_of(args, 1), notes
+            raise AnalysisError(f'{where}: unrecognised EBaseStruct field list `{X.show(fl)[:80]}`')
+        raise AnalysisError(f'{where}: EType constructor {fn} is not in the frozen layout table')
+
+
+def _show_sig(s: Any) -> str:
+    if isinstance(s, str):
+        return s
+    if s[0] == 'param':
+        return f'<{s[1]}>'
+    if s[0] == 'struct':
+        return 'struct{' + ('*' if s[1] == 'FIELDS' else ', '.join(_show_sig(x) for x in s[1])) + '}'
+    if s[0] == 'array':
+        return f'array[{"missing-bytes, " if s[1] else "no missing bytes, "}{_show_sig(s[2])}]'
+    if s[0] == 'ndarray':
+        return f'ndarray[{_show_sig(s[1])}]'
+    return repr(s)
+
+
+def _r4(ctx: Ctx, m: pf.Module, classes: Dict[str, ast.ClassDef], canon: Dict[str, Tuple[List[tuple], Canon, Canon]], r2_failed: set):
+    ps = PySigs(ctx, m, classes, canon)
+    es = EngineSigs(ctx)
+    sc_path = repo_path(ETYPE)
+    used_arms: set = set()
+    n = 0
+    for cname, c in classes.items():
+        if cname not in canon or canon[cname][0] == [('raise',)]:
+            continue
+        if cname == '_freeze_this_type':
+            # transparent wrapper: must simply delegate to the wrapped type
+            ctx.check(canon[cname][0] == [('rec', 'self.t')], 'R4', f'{F}::{cname}::transparent', f'wrapper layout is `{show_canon(canon[cname][0])}`, not the wrapped type\'s', m.path, c.lineno)
+            continue
+        tname = _scala_type_name(ctx, c)
+        ctx.need(tname is not None, f'{cname} has an encoder but no _parsable_string')
+        cons = f'{F}::{cname} <-> {ETYPE}::fromPythonTypeEncoding[{tname}]'
+        arm = es.arm_for(tname)
+        if arm is None:
+            ctx.bad('R4', cons, f'Python encodes values of {cname} ({tname}) but fromPythonTypeEncoding has no case for {tname} or a supertype: the engine throws MatchError on such a literal', sc_path, es.line)
+            continue
+        idx, armname, binder, body = arm
+        used_arms.add(idx)
+        try:
+            py = ps.sig(cname)
+        except AnalysisError:
+            if cname in r2_failed:
+                ctx.ok('R4', cons, 'not comparable: writer and reader disagree (reported under R2)', nontrivial=False)
+                continue
+            raise
+        eng, req, notes = es.conv(body, binder, armname)
+        n += 1
+        msg = []
+        if req:
+            msg.append(f'the arm yields a *required* EType: a field/element of this type gets no missing bit in the engine, but Python writes one for every field/element')
+        if notes:
+            msg.append('; '.join(notes) + ' - Python writes a missing bit for every field')
+        if py != eng:
+            msg.append(f'layouts differ: Python {cname} is {_show_sig(py)}, engine arm `case {armname}` is {_show_sig(eng)}')
+        ctx.check(not msg, 'R4', cons, '; '.join(msg), sc_path, es.line, detail={'layout': _show_sig(py), 'arm': armname})
+    ctx.need(n >= 14, f'expected >= 14 Python classes compared with engine arms, compared {n}')
+    # arms never selected by a Python class: only engine-internal types may remain
+    py_names = {_scala_type_name(ctx, c) for c in classes.values()}
+    for i, (tn, binder, body) in enumerate(es.arms):
+        if i in used_arms:
+            continue
+        ctx.check(tn not in py_names and tn == 'TBinary', 'R4', f'{ETYPE}::fromPythonTypeEncoding[{tn}]::has a Python encoder',
+                  f'arm `case {tn}` is not reached by any Python class with an encoder' + (' although Python has that type' if tn in py_names else ''), sc_path, es.line,
+                  detail='engine-only type (no Python counterpart)')
+
+
+# --------------------------------------------------------------------------------------
+# R6 struct-represented values
+# --------------------------------------------------------------------------------------
+
+
+def _norm_name(s: str) -> str:
+    return s.replace('_', '').lower()
+
+
+def _engine_field_names(es: EngineSigs, armname: str) -> Optional[List[str]]:
+    for tn, binder, body in es.arms:
+        if tn == armname and body[0] == 'call' and body[1] == ('name', 'EBaseStruct') and body[2] and body[2][0][1][0] == 'call':
+            out = []
+            for _, fe in body[2][0][1][2]:
+                if fe[0] == 'call' and fe[1] == ('name', 'EField') and fe[2] and fe[2][0][1][0] == 'str':
+                    out.append(fe[2][0][1][1].strip('"'))
+                else:
+                    return None
+            return out
+    return None
+
+
+def _r6(ctx: Ctx, m: pf.Module, classes: Dict[str, ast.ClassDef], canon: Dict[str, Tuple[List[tuple], Canon, Canon]], ps: PySigs, es: EngineSigs):
+    for cname, armname in (('tlocus', 'TLocus'), ('tinterval', 'TInterval')):
+        ctx.need(cname in canon, f'anchor vanished: {cname} encoders')
+        pw, cw, cr = canon[cname]
+        ctx.need(len(pw) == 1 and pw[0][0] == 'rec', f'{cname}: encoder does not delegate to a struct representation')
+        target = pw[0][1]
+        attr = target.split('.')[1]
+        rep = ps.attr_expr(cname, attr)
+        ctx.need(isinstance(rep, ast.Call) and pf.dotted(rep.func) in ('tstruct', 'hl.tstruct') and not rep.args, f'{cname}.{attr} is not tstruct(name=type, …)')
+        fields = [k.arg for k in rep.keywords]
+        # writer dict
+        wrec = cw.facts['recs'][0]
+        d = _resolve(cw.fn, wrec[2]['arg'])
+        ctx.need(isinstance(d, ast.Dict) and all(isinstance(k, ast.Constant) and isinstance(k.value, str) for k in d.keys), f'{cname}.{TO}: the value handed to the struct encoder is not a dict literal')
+        wkeys = {k.value: v for k, v in zip(d.keys, d.values)}
+        cons = f'{F}::{cname}::struct representation fields'
+        ctx.check(set(wkeys) == set(fields), 'R6', cons,
+                  f'writer fills {sorted(wkeys)} but the representation struct has fields {fields}: tstruct._convert_to_encoding indexes value[field] for every field (KeyError) / ignores extras',
+                  m.path, d.lineno, detail={'fields': fields})
+        # reader
+        rrec = cr.facts['recs'][0]
+        bound = rrec[2]['bind']
+        ctx.need(bound is not None, f'{cname}.{FROM}: decoded struct is not bound to a name')
+        rets = [n for n in pf.walk_shallow(cr.fn) if isinstance(n, ast.Return) and n.value is not None]
+        ctx.need(len(rets) == 1 and isinstance(rets[0].value, ast.Call) and W.value_class_of_call(rets[0].value), f'{cname}.{FROM}: does not return a value-class constructor call')
+        ctor = rets[0].value
+        vc = W.value_class(W.value_class_of_call(ctor))
+        rattr: Dict[str, str] = {}
+        for a in list(ctor.args) + [k.value for k in ctor.keywords]:
+            if isinstance(a, ast.Attribute) and isinstance(a.value, ast.Name) and a.value.id == bound:
+                rattr[a.attr] = vc.param_of_arg(ctor, a)
+        ctx.check(set(rattr) == set(fields), 'R6', f'{F}::{cname}::fields read back',
+                  f'reader takes {sorted(rattr)} from the decoded struct, the representation has {fields}: ' +
+                  (f'{sorted(set(rattr) - set(fields))} does not exist (AttributeError)' if set(rattr) - set(fields) else f'{sorted(set(fields) - set(rattr))} is dropped'),
+                  m.path, ctor.lineno)
+        eng_names = _engine_field_names(es, armname)
+        ctx.need(eng_names is not None and len(eng_names) == len(fields), f'{ETYPE}: arm {armname} has no literal field list of length {len(fields)}')
+        for i, f_ in enumerate(fields):
+            if f_ not in wkeys or f_ not in rattr:
+                ctx.ok('R6', f'{F}::{cname}::role of field {f_!r}', 'not comparable (reported above)', nontrivial=False)
+                continue
+            src = wkeys[f_]
+            ctx.need(isinstance(src, ast.Attribute) and isinstance(src.value, ast.Name) and src.value.id == cw.value, f'{cname}.{TO}: field {f_!r} is filled from `{pf.nsrc(src)}`')
+            a_w, a_r = vc.attr_for_prop(src.attr), vc.attr_for_param(rattr[f_])
+            ctx.need(a_w is not None and a_r is not None, f'{vc.name}: cannot resolve property {src.attr} / parameter {rattr[f_]}')
+            msg = []
+            if a_w != a_r:
+                msg.append(f'field {f_!r} is written from {vc.name}.{src.attr} but read back into constructor parameter `{rattr[f_]}`')
+            if _norm_name(eng_names[i]) != _norm_name(src.attr):
+                msg.append(f'position {i} of the representation carries {vc.name}.{src.attr} but the engine reads position {i} as `{eng_names[i]}`')
+            ctx.check(not msg, 'R6', f'{F}::{cname}::role of field {f_!r}', '; '.join(msg) + f': the {vc.name} arrives with its components exchanged', m.path, src.lineno,
+                      detail={'attr': src.attr, 'param': rattr[f_], 'engine_field': eng_names[i]})
+
+
+# --------------------------------------------------------------------------------------
+# R7 entry points
+# --------------------------------------------------------------------------------------
+
+
+def _tokens_of_case(rel: str, label: str) -> str:
+    """Text (tokens joined by single spaces removed) of the arm `case "<label>" => …` up to the next `case` at the same depth."""
+    sf = S.load(rel)
+    t = sf.raw
+    hits = [i for i in range(len(t) - 2) if t[i][0] == 'kw' and t[i][1] == 'case' and t[i + 1][0] == 'str' and t[i + 1][1] == f'"{label}"' and t[i + 2][1] == '=>']
+    if len(hits) != 1:
+        raise AnalysisError(f'{rel}: expected exactly one `case "{label}" =>`, found {len(hits)}')
+    j = hits[0] + 3
+    depth = 0
+    out = []
+    while j < len(t):
+        k, x, _ = t[j]
+        if k == 'p' and x in '([{':
+            depth += 1
+        elif k == 'p' and x in ')]}':
+            if depth == 0:
+                break
+            depth -= 1
+        elif k == 'kw' and x == 'case' and depth == 0:
+            break
+        if k != 'nl':
+            out.append(x)
+        j += 1
+    return ''.join(out)
+
+
+def _r7(ctx: Ctx, m: pf.Module):
+    base = W.methods(m.cls('HailType'))
+    # _to_encoding / _from_encoding
+    ctx.need('_to_encoding' in base and '_from_encoding' in base, 'anchor vanished: HailType._to_encoding/_from_encoding')
+    te = base['_to_encoding']
+    calls = {pf.nsrc(c) for c in pf.calls_in(te)}
+    v = W.param_names(te)[1]
+    bufs = [st.targets[0].id for st in te.body if isinstance(st, ast.Assign) and isinstance(st.targets[0], ast.Name) and pf.nsrc(st.value) == 'bytearray()']
+    ok = len(bufs) == 1 and f'self._convert_to_encoding(ByteWriter({bufs[0]}), {v})' in calls and any(isinstance(s, ast.Return) and pf.nsrc(s.value) == f'bytes({bufs[0]})' for s in te.body)
+    ctx.check(ok, 'R7', f'{F}::HailType._to_encoding', '_to_encoding does not return the bytes that _convert_to_encoding wrote into a fresh buffer', m.path, te.lineno)
+    fe = base['_from_encoding']
+    b = W.body_wo_doc(fe)
+    p = W.param_names(fe)[1]
+    ok = len(b) == 1 and isinstance(b[0], ast.Return) and pf.nsrc(b[0].value) in (f'self._convert_from_encoding(ByteReader(memoryview({p})))', f'self._convert_from_encoding(ByteReader({p}))')
+    ctx.check(ok, 'R7', f'{F}::HailType._from_encoding', '_from_encoding does not decode its whole argument from offset 0 with _convert_from_encoding', m.path, fe.lineno)
+    # EncodedLiteral
+    im = pf.load(IRPY)
+    ev = im.func('EncodedLiteral.encoded_value')
+    srcs = [pf.nsrc(c) for c in pf.calls_in(ev)]
+    ok = any(s == "base64.b64encode(self._typ._to_encoding(self._value)).decode('utf-8')" or s == 'base64.b64encode(self._typ._to_encoding(self._value)).decode()'
+             or s == "base64.b64encode(self._typ._to_encoding(self._value)).decode('ascii')" for s in srcs)
+    ctx.check(ok, 'R7', f'{IRPY}::EncodedLiteral.encoded_value', f'the literal does not carry standard base64 of self._typ._to_encoding(self._value) (calls: {srcs[:3]})', im.path, ev.lineno)
+    hs = im.func('EncodedLiteral.head_str')
+    rets = [n for n in ast.walk(hs) if isinstance(n, ast.Return)]
+    tmpl = pf.fstring_template(rets[0].value, lambda e: '{' + pf.nsrc(e) + '}') if len(rets) == 1 else None
+    ctx.check(tmpl == '{self._typ._parsable_string()} "{self.encoded_value}"', 'R7', f'{IRPY}::EncodedLiteral.head_str',
+              f'rendered as `{tmpl}`; the parser expects <type> "<base64>"', im.path, hs.lineno)
+    arm = _tokens_of_case(PARSER, 'EncodedLiteral')
+    need = ['valtyp=type_expr(it)', 'Base64.getDecoder.decode(string_literal(it))', 'EType.fromPythonTypeEncoding(typ)', 'BufferSpec.unblockedUncompressed']
+    miss = [x for x in need if x not in arm]
+    order_ok = not miss and arm.index(need[0]) < arm.index(need[1])
+    ctx.check(not miss and order_ok, 'R7', f'{PARSER}::case "EncodedLiteral"',
+              (f'the parser arm lacks {miss}' if miss else 'the parser reads the base64 string before the type') + ': the literal is not decoded with the Python-specific encoding of its own type over an unframed stream',
+              repo_path(PARSER), 0)
+    bs = S.load(BUFSPEC).val('object:BufferSpec', 'unblockedUncompressed')
+    ctx.check(X.from_scala(bs) == ('new', 'StreamBufferSpec', []), 'R7', f'{BUFSPEC}::BufferSpec.unblockedUncompressed', f'unblockedUncompressed is `{X.show(bs)}`, not a plain StreamBufferSpec (Python sends raw bytes without block framing)',
+              repo_path(BUFSPEC), 0)
+    # results
+    bm = pf.load(BACKEND)
+    ex = bm.func('Backend.execute')
+    srcs = [pf.nsrc(c) for c in pf.calls_in(ex)]
+    ok = 'ir.typ._from_encoding(result)' in srcs
+    codec = [k.value for c in pf.calls_in(ex) if pf.dotted(c.func) == 'ExecutePayload' for k in c.keywords if k.arg == 'stream_codec']
+    ok2 = len(codec) == 1 and pf.const_str(codec[0]) is not None and pf.const_str(codec[0]).replace(' ', '') == '{"name":"StreamBufferSpec"}'
+    ctx.check(ok and ok2, 'R7', f'{BACKEND}::Backend.execute', 'results are not decoded with ir.typ._from_encoding from an unframed StreamBufferSpec stream', bm.path, ex.lineno)
+    d = S.load(BACKSC).def_('object:Backend', 'encodeToOutputStream')
+    txt = ''
+    for n in S.walk(X.from_scala(d.body)):
+        if n and n[0] == 'call' and n[1] == ('name', 'TypedCodecSpec'):
+            txt = X.show(n)
+    ctx.check(txt.startswith('TypedCodecSpec(EType.fromPythonTypeEncoding(elementType.virtualType), elementType.virtualType, bufferSpec'), 'R7', f'{BACKSC}::Backend.encodeToOutputStream',
+              f'results are encoded with `{txt}`, not with EType.fromPythonTypeEncoding of the result type', repo_path(BACKSC), d.line)
+
+
+def run(ctx: Ctx) -> None:
+    ctx.level = 'other'
+    ctx.explanation = ('Wire programs of _convert_to_encoding/_convert_from_encoding of every HailType subclass are extracted from the AST and compared; the engine layout per type is '
+                       'extracted from EType.fromPythonTypeEncoding (Scala) through a frozen EType layout table; primitives, missing-bit addressing, ndarray order, representation '
+                       'structs and the entry points are compared likewise. No repository code is run.')
+    ctx.rule('R1', 'byte_reader read_X/write_X: same struct format, promised width/signedness, "="/"<" order, offset advances by the width', 15)
+    ctx.rule('R2', 'wire program of the writer == wire program of the reader per class; both overridden together; presence tests guard the encoded component; freeze flags forwarded', 36)
+    ctx.rule('R3', 'missing bits: element e <-> bit e%8 of byte e//8, LSB first, ceil(n/8) bytes (writer idiom, reader addressing, lookup_bit)', 7)
+    ctx.rule('R4', 'layout of each Python type == frozen layout of the EType chosen by fromPythonTypeEncoding; every encodable Python type has an arm', 16)
+    ctx.rule('R5', 'ndarray: int64 shape header, column-major element order on both sides, raw-buffer fast path dead or absent', 4)
+    ctx.rule('R6', 'locus/interval: names written == representation fields == attributes read; attribute -> field -> constructor parameter and engine field name agree', 10)
+    ctx.rule('R7', 'entry points use _to_encoding/_from_encoding, base64, fromPythonTypeEncoding and an unframed stream on both sides', 8)
+    ctx.rule('R8', 'strings are utf-8 on both sides and the int32 prefix counts the encoded bytes', 2)
+    ctx.assume('values are well-typed (e.g. the rank of an ndarray value equals the ndim of its type; struct values have every field)')
+    ctx.assume('frozen EType layouts: EArray/EUnsortedSet/EDictAsUnsortedArrayOfPairs = int32 n, ceil(n/8) missing bytes iff the element type is not required, present elements; '
+               'EBaseStruct = one missing bit per non-required field then present fields; EBinary = int32 n + n bytes; ENDArrayColumnMajor = int64 per dimension + all elements')
+    ctx.assume('the host is little-endian (struct "=" is native byte order with standard sizes)')
+    m = pf.load(F)
+    classes = W.hail_type_classes(m)
+    ctx.need(len(classes) >= 20, f'expected >= 20 HailType subclasses in {F}, found {len(classes)}')
+    ctx.unit('files', 12)
+    ctx.unit('classes', len(classes))
+    _r1(ctx)
+    canon = _python_side(ctx, m, classes)
+    r2_failed = {i['construct'].split('::')[1] for i in ctx.instances if i['rule'] == 'R2' and not i['holds']}
+    ctx.unit('wire_programs', 2 * len(canon))
+    _r3(ctx, m, canon)
+    _r8(ctx, m, canon)
+    _r5(ctx, m, classes, canon)
+    _r4(ctx, m, classes, canon, r2_failed)
+    ps = PySigs(ctx, m, classes, canon)
+    es = EngineSigs(ctx)
+    _r6(ctx, m, classes, canon, ps, es)
+    _r7(ctx, m)
